@@ -205,12 +205,29 @@ func (e *Enc) havocMods(st *State, mods ModSet, label string) {
 		}
 		nv := e.declare(e.freshName(label+"$"+k), h.Sort)
 		st.set(h, nv)
+		// objects allocated by this function that never escaped cannot be reached by the callee
+		for _, la := range e.localAllocs {
+			if !la.heaps[k] || la.block == nil || e.curBlock == nil || !la.block.Dominates(e.curBlock) {
+				continue
+			}
+			t, ok := e.vals[la.v]
+			if !ok {
+				continue
+			}
+			if la.isSlice {
+				t = "(s.arr " + t + ")"
+			}
+			e.fact("(= (select " + nv + " " + t + ") (select " + prev + " " + t + "))")
+		}
 		if kind == ModFresh && strings.HasPrefix(h.Sort, "(Array Int") {
 			// only objects allocated by the callee are written
 			qv := "qr!" + fmt.Sprint(e.nfresh)
 			e.fact(fmt.Sprintf("(forall ((%s Int)) (! (=> (<= %s %s) (= (select %s %s) (select %s %s))) :pattern ((select %s %s))))",
 				qv, qv, e.preAlloc(st, prev), nv, qv, prev, qv, nv, qv))
 		}
+	}
+	if mods.opaque {
+		st.resetBounds()
 	}
 }
 
@@ -554,6 +571,9 @@ func (e *Enc) encodeAppend(args []ssa.Value, v *ssa.Call, st *State) {
 	// fresh array: prefix copied from the old slice
 	e.fact(fmt.Sprintf("(forall ((%s Int)) (! (=> (and (<= 0 %s) (< %s %s)) (= (select %s %s) (select %s (at (s.off %s) %s)))) :pattern ((select %s %s))))",
 		qj, qj, qj, slen, afr, qj, Es, x, qj, afr, qj))
+	// the same fact triggered from the old element (so that "there is an index in the result" goals find their witness)
+	e.fact(fmt.Sprintf("(forall ((%s Int)) (! (=> (and (<= 0 %s) (< %s %s)) (= (select %s (at 0 %s)) (select %s (at (s.off %s) %s)))) :pattern ((select %s (at (s.off %s) %s)))))",
+		qj, qj, qj, slen, afr, qj, Es, x, qj, Es, x, qj))
 	if cl, ok := constLenOf(args[1]); ok && cl <= 8 {
 		ainT := Es
 		for i := int64(0); i < cl; i++ {
